@@ -76,6 +76,14 @@ func Val(t *rapid.T, label string, o ValOpts) []byte {
 	}
 	b := rapid.SliceOfN(gen, 1, max).Draw(t, label)
 	b = append([]byte(nil), b...)
+	if (o.MaxLen == 0 || o.MaxLen >= 40) && rapid.IntRange(0, 24).Draw(t, label+"-long") == 0 {
+		// the parser states no limit on the length of a value: now and then one around the sizes buffers tend to have
+		want := rapid.OneOf(rapid.SampledFrom([]int{63, 64, 65, 127, 128, 129, 255, 256, 257, 511, 512, 1023, 1024, 1025, 4095, 4096, 4097, 8191, 8192, 8193}),
+			rapid.IntRange(max, 6000)).Draw(t, label+"-len")
+		for n := len(b); len(b) < want; {
+			b = append(b, b[:min(n, want-len(b))]...)
+		}
+	}
 	for i := range b {
 		if b[i] == 0 {
 			b[i] = 1
